@@ -47,7 +47,10 @@ RULE = ("one wheel per case: slot count N in {1..7,10,16,60,300}, interval in {1
         "stream (Stop while a held Drain of 9-40 tasks over all slots is still handing over) and a key re-use stream "
         "(SetTimer/MoveTimer/RemoveTimer of key k while k's own execute callback is still running: from another goroutine "
         "with the callback held on a gate, and from inside the callback, optionally followed by a call from outside; "
-        "delays below/at/above one revolution); non-trivial = at least one callback "
+        "delays below/at/above one revolution), a set-then-remove stream (SetTimer(k) immediately followed by RemoveTimer(k) from "
+        "the same goroutine for 20-60 keys, with GOMAXPROCS(1) and without) and a two-wheel stream (two independent wheels in "
+        "one process, A stuck in a held Drain of >= 9 tasks while B sets, ticks, drains and stops; each wheel is checked "
+        "against its own model run); non-trivial = at least one callback "
         "observed and at least one Move or re-Set of a pending key; distinct = distinct canonical case JSON")
 TRUSTED = ["the wheel model uses a plain association list for the timers index; that SafeMap refines a plain map is proved "
            "(c10_safemap_refines_map) and corresponded on its own histories (kind safemap)",
@@ -325,6 +328,55 @@ def _reuse(rng):
     return case
 
 
+def _setrm(rng):
+    """SetTimer(k) and, straight away from the same goroutine, RemoveTimer(k), for many keys, with GOMAXPROCS(1) and
+    without: none of them ever fires; a few plain timers in between do"""
+    n = rng.choice([1, 2, 3, 5, 10])
+    iv = rng.choice([1, 1000])
+    calls = [{"op": "tick"} for _ in range(rng.randrange(n))]
+    nk = rng.choice([20, 40, 60])
+    for i, k in enumerate(LOTS[:nk]):
+        if i % 7 == 3:
+            calls.append({"op": "set", "key": k, "val": i, "delay": rng.randint(1, 2 * n + 1) * iv})
+        else:
+            calls.append({"op": "setrm", "key": k, "val": i, "delay": rng.choice([1, 1, n, n + 1, 2 * n + 1]) * iv})
+        if rng.random() < 0.1:
+            calls.append({"op": "tick"})
+    calls.extend({"op": "tick"} for _ in range(2 * n + 3))
+    case = {"kind": "wheel", "interval": iv, "slots": n, "calls": calls}
+    if rng.random() < 0.5:
+        case["gomaxprocs"] = 1
+    return case
+
+
+def _two_wheels(rng):
+    """two wheels side by side: A drains into >= 8 held drain function calls (its loop is stuck in the runner) while B
+    sets, ticks, drains all of its own pending tasks and keeps ticking"""
+    n = rng.choice([2, 3, 5])
+    iv = rng.choice([1, 1000])
+    calls = []
+    na = rng.choice([9, 12, 16])
+    for i in range(na):
+        calls.append({"op": "set", "key": LOTS[i], "val": i, "delay": (1 + i % (2 * n)) * iv})
+    nb = rng.choice([3, 9, 12])
+    for i in range(nb):
+        calls.append({"op": "set", "w": 1, "key": LOTS[i], "val": 100 + i, "delay": (1 + i % (2 * n + 1)) * iv})
+    calls += [{"op": "tick"}, {"op": "tick", "w": 1}]
+    if rng.random() < 0.7:
+        calls += [{"op": "holddrain"}, {"op": "drain"}]
+    for _ in range(rng.randint(1, 3)):
+        calls.append({"op": "tick", "w": 1})
+    calls.append({"op": "set", "w": 1, "key": "k40", "val": 7, "delay": 2 * iv})
+    if rng.random() < 0.7:
+        calls.append({"op": "drain", "w": 1})
+    calls += [{"op": "tick", "w": 1}] * rng.randint(1, n + 2)
+    if rng.random() < 0.5:
+        calls += [{"op": "stop", "w": 1}, {"op": "set", "w": 1, "key": "k41", "val": 1, "delay": iv}]
+    calls.append({"op": "releasedrain"})
+    calls += [{"op": "tick"}] * rng.randint(1, 3)
+    return {"kind": "wheel", "interval": iv, "slots": n, "wheels": 2, "calls": calls}
+
+
 def _gated_drain(rng):
     """Drain with more pending tasks than drainWorkers while the drain function is held; ticks arrive meanwhile"""
     n = rng.choice([1, 2, 3, 4, 5, 10])
@@ -414,7 +466,11 @@ def generate(rng, tier, n):
         cases.append({"kind": "wheel", "interval": -5, "slots": -1, "calls": []})
     while len(cases) < n:
         r = rng.random()
-        if r < 0.03:
+        if r < 0.025:
+            cases.append(_setrm(rng))
+        elif r < 0.05:
+            cases.append(_two_wheels(rng))
+        elif r < 0.07:
             cases.append(_drain_stop(rng))
         elif r < 0.11:
             cases.append(_reuse(rng))
@@ -488,7 +544,7 @@ def search(rng, problems):
                     calls.extend({"op": "tick"} for _ in range(3 * n + 2))
                     out.append({"kind": "wheel", "interval": 1000, "slots": n, "calls": calls})
     rng.shuffle(out)
-    return out[:300] + [_drain_stop(rng) for _ in range(15)] + [_reuse(rng) for _ in range(40)] + [_panic_drain(rng) for _ in range(12)] + [_panic_exec(rng) for _ in range(12)] + [_directed(rng) for _ in range(200)] + [_gated_exec(rng) for _ in range(60)] + [_gated_drain(rng) for _ in range(60)]
+    return out[:300] + [_setrm(rng) for _ in range(20)] + [_two_wheels(rng) for _ in range(20)] + [_drain_stop(rng) for _ in range(15)] + [_reuse(rng) for _ in range(40)] + [_panic_drain(rng) for _ in range(12)] + [_panic_exec(rng) for _ in range(12)] + [_directed(rng) for _ in range(200)] + [_gated_exec(rng) for _ in range(60)] + [_gated_drain(rng) for _ in range(60)]
 
 
 def _key(k):
@@ -541,18 +597,34 @@ def encode(case, obs):
             return "XGate"
         return "XC CStop"
 
-    calls, os_ = [], []
     ol = obs.get("obs", [])
-    for i, c in enumerate(case["calls"]):
-        calls.append(term(c))
-        if i < len(ol):
-            o = ol[i]
-            os_.append("mkObs %s %s %s" % (cnat(o["err"]), _pairs(o["fired"]), _pairs(o["drained"])))
-            for r in o.get("rearmed") or []:     # wheel calls made from inside this call's callbacks: they follow it
-                calls.append(term(r))
-                os_.append("mkObs %s [] []" % cnat(r["err"]))
-    return "CW (mkcase %s %s %s %s %s %s)" % (cZ(case["interval"]), cZ(case["slots"]), clist(calls), cbool(obs.get("new_ok", False)),
-                                              clist(os_), cbool(bool(obs.get("hung"))))
+
+    def one(which):
+        calls, os_ = [], []
+        for i, c in enumerate(case["calls"]):
+            if c.get("w", 0) != which:
+                continue
+            if c["op"] == "setrm":      # SetTimer then RemoveTimer straight away: two calls, nothing may fire
+                calls += [term(dict(c, op="set")), term(dict(c, op="remove"))]
+                if i < len(ol):
+                    o = ol[i]
+                    os_ += ["mkObs %s %s %s" % (cnat(o["err"]), _pairs(o["fired"]), _pairs(o["drained"])),
+                            "mkObs %s [] []" % cnat(o.get("err2", 0))]
+                continue
+            calls.append(term(c))
+            if i < len(ol):
+                o = ol[i]
+                os_.append("mkObs %s %s %s" % (cnat(o["err"]), _pairs(o["fired"]), _pairs(o["drained"])))
+                for r in o.get("rearmed") or []:     # wheel calls made from inside this call's callbacks: they follow it
+                    calls.append(term(r))
+                    os_.append("mkObs %s [] []" % cnat(r["err"]))
+        short = len(ol) < len(case["calls"])
+        return "mkcase %s %s %s %s %s %s" % (cZ(case["interval"]), cZ(case["slots"]), clist(calls), cbool(obs.get("new_ok", False)),
+                                             clist(os_), cbool(bool(obs.get("hung")) or short))
+
+    if case.get("wheels", 1) >= 2:
+        return "CW2 (%s) (%s)" % (one(0), one(1))
+    return "CW (%s)" % one(0)
 
 
 def _resched(case):
@@ -606,6 +678,10 @@ def bucket(case, obs):
         ops_ = [c["op"] for c in case["calls"]]
         if ops_.index("stop") > ops_.index("drain") and ("releasedrain" not in ops_ or ops_.index("stop") < ops_.index("releasedrain")):
             out.append("gate:stop-during-held-drain")
+    if "setrm" in kinds:
+        out.append("setrm:set-then-remove-back-to-back" + ("(GOMAXPROCS=1)" if case.get("gomaxprocs") == 1 else ""))
+    if case.get("wheels", 1) >= 2:
+        out.append("two-wheels" + (":A-drain-held" if "holddrain" in kinds else ""))
     if case.get("rearm"):
         out.append("reuse:wheel-call-from-inside-own-callback(%s)" % list(case["rearm"].values())[0]["op"])
     if "hold" in kinds:
